@@ -96,22 +96,29 @@ def seq_sort(e: T) -> z3.SortRef:
 def tuple_sort(t: T):
     key = tuple(sort_key(a) for a in t.args)
     if key not in _tuple_sorts:
-        dt = z3.Datatype("Tup_" + "_".join(key))
-        dt.declare("mk", *[(f"f{i}", zsort(a)) for i, a in enumerate(t.args)])
+        nm = "Tup_" + "_".join(safe_ident(k) for k in key)
+        dt = z3.Datatype(nm)
+        dt.declare("mk_" + nm, *[(f"f{i}_{nm}", zsort(a)) for i, a in enumerate(t.args)])
         dt = dt.create()
-        _tuple_sorts[key] = (dt, dt.mk, [getattr(dt, f"f{i}") for i in range(len(key))])
+        _tuple_sorts[key] = (dt, dt.constructor(0), [dt.accessor(0, i) for i in range(len(key))])
     return _tuple_sorts[key]
 
 
 def opt_sort(e: T):
     key = sort_key(e)
     if key not in _opt_sorts:
-        dt = z3.Datatype(f"Opt_{key}")
-        dt.declare("none")
-        dt.declare("some", ("val", zsort(e)))
+        nm = "Opt_" + safe_ident(key)
+        dt = z3.Datatype(nm)
+        dt.declare("none_" + nm)
+        dt.declare("some_" + nm, ("val_" + nm, zsort(e)))
         dt = dt.create()
-        _opt_sorts[key] = (dt, dt.none, dt.some, dt.val, dt.is_none)
+        _opt_sorts[key] = (dt, dt.constructor(0)(), dt.constructor(1), dt.accessor(1, 0), dt.recognizer(0))
     return _opt_sorts[key]
+
+
+def safe_ident(s: str) -> str:
+    import re
+    return re.sub(r"[^A-Za-z0-9_]", "_", s)
 
 
 def safe_name(s: str) -> str:
